@@ -461,6 +461,9 @@ func runC20(w *W) {
 				st := steps
 				if n == 64 {
 					st = steps / 3
+					if w.Out.Variant == "race" && st > 10 {
+						st = 10 // 64 goroutines under the race detector: keep the footprint of a round bounded
+					}
 				}
 				w.c20Round(k, n, procs, st)
 			}
